@@ -566,6 +566,15 @@ func (r *runner) build(kind string, g *vh.Rng) (Ev, bool) {
 		return rx(pktBytes(2, other, nil))
 	case "rcn":
 		return rx(pktBytes(3, last, r.nakBody(g)))
+	case "rcn-good": // a well-formed Nak that changes our own options (not in kinds: used by the sweep only)
+		switch r.c.Proto {
+		case "lcp":
+			return rx(pktBytes(3, last, cat(opt(1, be16(1400)...), opt(5, 1, 1, 1, 1))))
+		case "ipcp":
+			return rx(pktBytes(3, last, opt(3, 10, 9, 8, 7)))
+		default:
+			return rx(pktBytes(3, last, opt(1, 2, 0, 0, 0, 0, 0, 0, 9)))
+		}
 	case "rcn-stale":
 		return rx(pktBytes(3, other, r.nakBody(g)))
 	case "rcn-bad":
@@ -824,6 +833,433 @@ func silentCase(g *vh.Rng, proto string, prefix int, live bool) vh.Case {
 	return r.finish(tag)
 }
 
+// ---------------------------------------------------------------- option-value sweep (stream optsweep)
+
+// reach: shortest event-kind paths into each of the ten states (every state answers a
+// Configure-Request, so every state is a place where the option processor runs)
+var reach = []struct {
+	name string
+	st   int
+	path []string
+}{
+	{"reqsent", 6, []string{"open", "up"}},
+	{"ackrcvd", 7, []string{"open", "up", "rca"}},
+	{"acksent", 8, []string{"open", "up", "rcr+"}},
+	{"opened", 9, []string{"open", "up", "rcr+", "rca"}},
+	{"initial", 0, nil},
+	{"starting", 1, []string{"open"}},
+	{"closed", 2, []string{"up"}},
+	{"stopped", 3, []string{"open", "up", "rtr"}},
+	{"closing", 4, []string{"open", "up", "close"}},
+	{"stopping", 5, []string{"open", "up", "rcr+", "rca", "rtr"}},
+	{"reqsent-after-nak", 6, []string{"open", "up", "rcn-good"}}, // our own options changed by the peer's Nak (IPv6CP: negotiated id != config id)
+}
+
+// boundary set of a numeric option accepted on [min,max] with default def
+func bset(min, max, def, top uint64) []uint64 {
+	var out []uint64
+	seen := map[uint64]bool{}
+	for _, v := range []uint64{min - 1, min, min + 1, def, max - 1, max, max + 1, 0, top} {
+		if !seen[v] {
+			seen[v] = true
+			out = append(out, v)
+		}
+	}
+	return out
+}
+
+type variant struct {
+	name string
+	body func(r *runner) []byte
+}
+
+func fixed(name string, b []byte) variant {
+	return variant{name, func(*runner) []byte { return b }}
+}
+
+// sweepVariants: the option lists of a Configure-Request that probe every acceptance rule of the
+// protocol's option processor at its boundaries: each numeric option over its boundary set, every
+// length around the coded one, values equal / adjacent to our own (magic number, interface id,
+// assigned address), unknown types, lists ending in a data-less option, duplicated and reordered
+// options.
+func sweepVariants(proto string) []variant {
+	var vs []variant
+	add := func(v variant) { vs = append(vs, v) }
+	switch proto {
+	case "lcp":
+		ours := func(r *runner) uint32 { return binary.BigEndian.Uint32(r.snap.Local[0:4]) }
+		okMagic := func(r *runner) []byte { // a magic number that is neither zero nor ours
+			m := uint32(0x5a5a5a5a)
+			if m == ours(r) {
+				m++
+			}
+			return opt(5, be32(m)...)
+		}
+		for _, v := range append(bset(64, 1492, 1492, 0xffff), 1500, 296) {
+			v := uint16(v)
+			add(fixed(fmt.Sprintf("mru=%d", v), opt(1, be16(v)...)))
+		}
+		for _, v := range []uint16{63, 64, 65, 1491, 1492, 1493} {
+			v := v
+			add(variant{fmt.Sprintf("mru=%d,magic", v), func(r *runner) []byte { return cat(opt(1, be16(v)...), okMagic(r)) }})
+			add(variant{fmt.Sprintf("magic,mru=%d", v), func(r *runner) []byte { return cat(okMagic(r), opt(1, be16(v)...)) }})
+		}
+		add(fixed("mru-len0", opt(1)))
+		add(fixed("mru-len1", opt(1, 5)))
+		add(fixed("mru-len3", opt(1, 0, 64, 0)))
+		add(fixed("mru-len4", opt(1, 0, 0, 5, 220)))
+		add(fixed("auth-pap", opt(3, 0xc0, 0x23)))
+		add(fixed("auth-chap", opt(3, 0xc2, 0x23, 5)))
+		add(fixed("auth-len0", opt(3)))
+		add(fixed("auth-len1", opt(3, 0xc0)))
+		add(fixed("auth-other", opt(3, 0x12, 0x34)))
+		add(fixed("magic=0", opt(5, 0, 0, 0, 0)))
+		add(variant{"magic=ours", func(r *runner) []byte { return opt(5, be32(ours(r))...) }})
+		add(variant{"magic=ours+1", func(r *runner) []byte { return opt(5, be32(ours(r)+1)...) }})
+		add(variant{"magic=ours-1", func(r *runner) []byte { return opt(5, be32(ours(r)-1)...) }})
+		add(fixed("magic=1", opt(5, 0, 0, 0, 1)))
+		add(fixed("magic=max", opt(5, 255, 255, 255, 255)))
+		add(fixed("magic-len0", opt(5)))
+		add(fixed("magic-len3", opt(5, 1, 2, 3)))
+		add(fixed("magic-len5", opt(5, 1, 2, 3, 4, 5)))
+		add(fixed("pfc", opt(7)))
+		add(fixed("pfc-len1", opt(7, 0)))
+		add(fixed("acfc", opt(8)))
+		add(fixed("acfc-len2", opt(8, 1, 2)))
+		for _, t := range []byte{0, 2, 4, 6, 9, 13, 255} {
+			add(fixed(fmt.Sprintf("unknown-%d", t), opt(t, make([]byte, 1+int(t)%4)...)))
+			add(fixed(fmt.Sprintf("unknown-%d-len0", t), opt(t)))
+		}
+		add(fixed("mru,pfc-last", cat(opt(1, be16(1492)...), opt(7))))
+		add(variant{"magic,acfc-last", func(r *runner) []byte { return cat(okMagic(r), opt(8)) }})
+		add(fixed("mru,unknown2-last", cat(opt(1, be16(1400)...), opt(9))))
+		add(fixed("pfc,acfc", cat(opt(7), opt(8))))
+		add(fixed("dup-mru-64-1500", cat(opt(1, be16(64)...), opt(1, be16(1500)...))))
+		add(fixed("dup-mru-1493-63", cat(opt(1, be16(1493)...), opt(1, be16(63)...))))
+		add(fixed("dup-mru-same", cat(opt(1, be16(1492)...), opt(1, be16(1492)...))))
+		add(variant{"dup-magic-ours", func(r *runner) []byte { return cat(opt(5, be32(ours(r))...), opt(5, be32(ours(r))...)) }})
+		add(variant{"dup-magic-0-ours", func(r *runner) []byte { return cat(opt(5, 0, 0, 0, 0), opt(5, be32(ours(r))...)) }})
+		add(fixed("dup-pfc", cat(opt(7), opt(7))))
+		add(variant{"reorder-all", func(r *runner) []byte { return cat(opt(8), opt(7), okMagic(r), opt(1, be16(64)...)) }})
+		add(variant{"nak3", func(r *runner) []byte {
+			return cat(opt(1, be16(63)...), opt(5, be32(ours(r))...), opt(1, be16(1493)...))
+		}})
+		add(fixed("rej-wins", cat(opt(13, 1), opt(1, be16(63)...), opt(5, 0, 0, 0, 0))))
+		add(fixed("empty", nil))
+	case "ipcp":
+		asg := func(r *runner) []byte { // the assigned address, or a plausible one when none is assigned
+			if len(r.c.Peer) == 4 {
+				return append([]byte(nil), r.c.Peer...)
+			}
+			return []byte{10, 0, 0, 9}
+		}
+		delta := func(r *runner, d int) []byte {
+			a := asg(r)
+			binary.BigEndian.PutUint32(a, binary.BigEndian.Uint32(a)+uint32(d))
+			return a
+		}
+		add(fixed("addr=0", opt(3, 0, 0, 0, 0)))
+		add(variant{"addr=assigned", func(r *runner) []byte { return opt(3, asg(r)...) }})
+		add(variant{"addr=assigned+1", func(r *runner) []byte { return opt(3, delta(r, 1)...) }})
+		add(variant{"addr=assigned-1", func(r *runner) []byte { return opt(3, delta(r, -1)...) }})
+		add(variant{"addr=assigned^hi", func(r *runner) []byte { a := asg(r); a[0] ^= 0x80; return opt(3, a...) }})
+		add(fixed("addr=max", opt(3, 255, 255, 255, 255)))
+		add(fixed("addr=0.0.0.1", opt(3, 0, 0, 0, 1)))
+		add(fixed("addr=1.0.0.0", opt(3, 1, 0, 0, 0)))
+		add(fixed("addr-len0", opt(3)))
+		add(fixed("addr-len3", opt(3, 10, 0, 0)))
+		add(fixed("addr-len5", opt(3, 10, 0, 0, 9, 0)))
+		add(fixed("addr-len16", opt(3, 0, 0, 0, 0, 0, 0, 0, 0, 0, 0, 255, 255, 10, 0, 0, 9)))
+		for _, t := range []byte{129, 131} {
+			add(fixed(fmt.Sprintf("dns%d=0", t), opt(t, 0, 0, 0, 0)))
+			add(fixed(fmt.Sprintf("dns%d=0.0.0.1", t), opt(t, 0, 0, 0, 1)))
+			add(fixed(fmt.Sprintf("dns%d=set", t), opt(t, 9, 9, 9, 9)))
+			add(fixed(fmt.Sprintf("dns%d-len0", t), opt(t)))
+			add(fixed(fmt.Sprintf("dns%d-len3", t), opt(t, 8, 8, 8)))
+			add(fixed(fmt.Sprintf("dns%d-len5", t), opt(t, 8, 8, 8, 8, 8)))
+		}
+		add(fixed("comp-vj", opt(2, 0, 0x2d, 15, 1)))
+		add(fixed("comp-len0", opt(2)))
+		for _, t := range []byte{0, 1, 4, 128, 130, 132, 255} {
+			add(fixed(fmt.Sprintf("unknown-%d", t), opt(t, make([]byte, 4)...)))
+			add(fixed(fmt.Sprintf("unknown-%d-len0", t), opt(t)))
+		}
+		add(variant{"addr,dns0,dns0", func(r *runner) []byte { return cat(opt(3, asg(r)...), opt(129, 0, 0, 0, 0), opt(131, 0, 0, 0, 0)) }})
+		add(fixed("dns0,addr0", cat(opt(129, 0, 0, 0, 0), opt(3, 0, 0, 0, 0))))
+		add(variant{"addr,unknown2-last", func(r *runner) []byte { return cat(opt(3, asg(r)...), opt(4)) }})
+		add(variant{"dup-addr-ok-wrong", func(r *runner) []byte { return cat(opt(3, asg(r)...), opt(3, delta(r, 1)...)) }})
+		add(variant{"dup-addr-wrong-ok", func(r *runner) []byte { return cat(opt(3, delta(r, 1)...), opt(3, asg(r)...)) }})
+		add(variant{"dup-addr-ok-ok", func(r *runner) []byte { return cat(opt(3, asg(r)...), opt(3, asg(r)...)) }})
+		add(variant{"reorder", func(r *runner) []byte { return cat(opt(131, 1, 1, 1, 1), opt(129, 9, 9, 9, 9), opt(3, asg(r)...)) }})
+		add(variant{"rej-wins", func(r *runner) []byte {
+			return cat(opt(3, delta(r, 1)...), opt(2, 0, 0x2d, 15, 1), opt(129, 0, 0, 0, 0))
+		}})
+		add(fixed("empty", nil))
+	default:
+		cfgID := func(r *runner) uint64 { return binary.BigEndian.Uint64(r.snap.Local[0:8]) }
+		negID := func(r *runner) uint64 { return binary.BigEndian.Uint64(r.snap.Local[8:16]) }
+		okID := func(r *runner) uint64 {
+			v := uint64(0x0200005efe000001)
+			for v == cfgID(r) || v == negID(r) {
+				v++
+			}
+			return v
+		}
+		add(fixed("ifid=0", opt(1, be64(0)...)))
+		add(variant{"ifid=ours", func(r *runner) []byte { return opt(1, be64(cfgID(r))...) }})
+		add(variant{"ifid=ours+1", func(r *runner) []byte { return opt(1, be64(cfgID(r)+1)...) }})
+		add(variant{"ifid=ours-1", func(r *runner) []byte { return opt(1, be64(cfgID(r)-1)...) }})
+		add(variant{"ifid=negotiated", func(r *runner) []byte { return opt(1, be64(negID(r))...) }})
+		add(fixed("ifid=1", opt(1, be64(1)...)))
+		add(fixed("ifid=max", opt(1, be64(^uint64(0))...)))
+		add(fixed("ifid-len0", opt(1)))
+		add(fixed("ifid-len4", opt(1, 1, 2, 3, 4)))
+		add(fixed("ifid-len7", opt(1, 1, 2, 3, 4, 5, 6, 7)))
+		add(fixed("ifid-len9", opt(1, 1, 2, 3, 4, 5, 6, 7, 8, 9)))
+		for _, t := range []byte{0, 2, 3, 255} {
+			add(fixed(fmt.Sprintf("unknown-%d", t), opt(t, 0, 0x61)))
+			add(fixed(fmt.Sprintf("unknown-%d-len0", t), opt(t)))
+		}
+		add(variant{"ifid,unknown2-last", func(r *runner) []byte { return cat(opt(1, be64(okID(r))...), opt(2)) }})
+		add(variant{"dup-ours-ours", func(r *runner) []byte { return cat(opt(1, be64(cfgID(r))...), opt(1, be64(cfgID(r))...)) }})
+		add(variant{"dup-0-ours", func(r *runner) []byte { return cat(opt(1, be64(0)...), opt(1, be64(cfgID(r))...)) }})
+		add(variant{"dup-ok-ok", func(r *runner) []byte { return cat(opt(1, be64(okID(r))...), opt(1, be64(okID(r)+8)...)) }})
+		add(variant{"dup-ok-0", func(r *runner) []byte { return cat(opt(1, be64(okID(r))...), opt(1, be64(0)...)) }})
+		add(fixed("rej-wins", cat(opt(7, 1), opt(1, be64(0)...))))
+		add(fixed("empty", nil))
+	}
+	return vs
+}
+
+// nakVariants: suggestion lists of a Configure-Nak we receive (receiveConfigureNak's own value rules:
+// LCP MRU bounds and lengths, magic length; IPCP / IPv6CP exact lengths)
+func nakVariants(proto string) []variant {
+	var vs []variant
+	switch proto {
+	case "lcp":
+		for _, v := range append(bset(64, 1492, 1492, 0xffff), 1500, 296) {
+			vs = append(vs, fixed(fmt.Sprintf("nak-mru=%d", v), opt(1, be16(uint16(v))...)))
+		}
+		vs = append(vs, fixed("nak-mru-len1", opt(1, 5)), fixed("nak-mru-len3", opt(1, 0, 64, 9)), fixed("nak-mru-len0", opt(1)),
+			fixed("nak-magic-len3", opt(5, 1, 2, 3)), fixed("nak-magic-len4", opt(5, 1, 2, 3, 4)), fixed("nak-magic-len5", opt(5, 1, 2, 3, 4, 5)),
+			fixed("nak-auth-pap", opt(3, 0xc0, 0x23)), fixed("nak-auth-chap", opt(3, 0xc2, 0x23, 5)), fixed("nak-auth-len1", opt(3, 0xc0)),
+			fixed("nak-mru64,mru1493", cat(opt(1, be16(64)...), opt(1, be16(1493)...))),
+			fixed("nak-pfc-last", cat(opt(1, be16(1400)...), opt(7))))
+	case "ipcp":
+		vs = append(vs, fixed("nak-addr", opt(3, 10, 9, 8, 7)), fixed("nak-addr=0", opt(3, 0, 0, 0, 0)), fixed("nak-addr-len3", opt(3, 10, 9, 8)),
+			fixed("nak-addr-len5", opt(3, 10, 9, 8, 7, 6)), fixed("nak-addr-len0", opt(3)), fixed("nak-dns", opt(129, 1, 1, 1, 1)),
+			fixed("nak-addr,addr", cat(opt(3, 10, 9, 8, 7), opt(3, 10, 9, 8, 6))))
+	default:
+		vs = append(vs, fixed("nak-ifid", opt(1, 2, 0, 0, 0, 0, 0, 0, 9)), fixed("nak-ifid=0", opt(1, be64(0)...)), fixed("nak-ifid-len7", opt(1, 1, 2, 3, 4, 5, 6, 7)),
+			fixed("nak-ifid-len9", opt(1, 1, 2, 3, 4, 5, 6, 7, 8, 9)), fixed("nak-ifid-len0", opt(1)), fixed("nak-other", opt(2, 0, 0x61)))
+	}
+	return vs
+}
+
+func sweepCfgs(thorough bool) []Case {
+	rng := []byte{1, 2, 3, 4, 5, 6, 7, 8, 9, 10, 11, 12, 13, 14, 15, 16, 17, 18, 19, 20, 21, 22, 23, 24, 25, 26, 27, 28, 29, 30, 31, 32}
+	cs := []Case{
+		{Proto: "lcp", Magic: 0x11223344, MRU: 1492, Auth: pppoe.ProtocolPAP, Chap: 5, PFC: true, Max: 3, Rng: rng},
+		{Proto: "ipcp", Local: []byte{10, 0, 0, 1}, Peer: []byte{10, 0, 0, 9}, DNS1: []byte{8, 8, 8, 8}, Max: 3},
+		{Proto: "ipcp", Local: []byte{10, 0, 0, 1}, DNS2: []byte{8, 8, 4, 4}, Max: 3},
+		{Proto: "ipv6cp", IfID: 0x0200000000000001, Max: 3, Rng: rng},
+	}
+	if thorough {
+		cs = append(cs,
+			Case{Proto: "lcp", Magic: 0, MRU: 296, Auth: pppoe.ProtocolCHAP, Chap: 5, ACFC: true, Max: 1, Rng: rng},
+			Case{Proto: "lcp", Magic: 1, MRU: 64, Auth: 0, Max: 0},
+			Case{Proto: "ipcp", Local: []byte{10, 0, 0, 1}, Peer: []byte{0, 0, 0, 1}, DNS1: []byte{8, 8, 8, 8}, DNS2: []byte{8, 8, 4, 4}, Max: 1},
+			Case{Proto: "ipcp", Peer: []byte{255, 255, 255, 255}, Max: 0},
+			Case{Proto: "ipv6cp", IfID: 0, Max: 1, Rng: rng},
+			Case{Proto: "ipv6cp", IfID: 1, Max: 0})
+	}
+	return cs
+}
+
+// sweep: variant x state; quick = every variant in Ack-Rcvd (an Ack opens the layer), in one of
+// Req-Sent / Ack-Sent / Opened and in one of the six other states, in rotation; thorough = the full
+// product and more configurations.
+func sweep(g *vh.Rng, thorough bool) []vh.Case {
+	var out []vh.Case
+	one := func(cfg Case, ri int, v variant, code byte, tag string) {
+		r := newRunner(cfg)
+		gg := g.Fork()
+		for _, k := range reach[ri].path {
+			if e, ok := r.build(k, gg); ok {
+				r.apply(e)
+			}
+		}
+		extra := []string{"gen:" + tag, "sweep-state:" + reach[ri].name, "sweep:" + v.name}
+		if r.snap.State != reach[ri].st {
+			extra = append(extra, "sweep-prefix-missed")
+		}
+		id := byte(0x40 + len(out)%97)
+		if code != 1 {
+			id = r.snap.LastIdentifier
+		}
+		r.apply(Ev{K: "recv", D: pktBytes(code, id, v.body(r)), A: tag})
+		// the consequence of the verdict: the peer's Ack for our latest request (opens from Ack-Sent)
+		if code == 1 && len(out)%2 == 0 {
+			if e, ok := r.build("rca", gg); ok {
+				r.apply(e)
+			}
+		}
+		out = append(out, r.finish(extra...))
+	}
+	for _, cfg := range sweepCfgs(thorough) {
+		for vi, v := range sweepVariants(cfg.Proto) {
+			for ri := range reach {
+				if thorough || ri == 1 || ri == []int{0, 2, 3}[vi%3] || ri == 4+vi%6 || (ri == 10 && (vi%4 == 0 || strings.Contains(v.name, "ours") || strings.Contains(v.name, "negotiated"))) {
+					one(cfg, ri, v, 1, "optsweep")
+				}
+			}
+		}
+		for vi, v := range nakVariants(cfg.Proto) {
+			for ri := 0; ri < 4; ri++ {
+				if thorough || ri == 0 || ri == 1+vi%3 {
+					one(cfg, ri, v, 3, "naksweep")
+				}
+			}
+		}
+	}
+	return out
+}
+
+// ---------------------------------------------------------------- renegotiation across Down/Up and Close/Open
+
+// renegCase: negotiate (random prefix), take the lower layer down and up again (or close and
+// re-open), then negotiate again: whatever the automaton carries across the cycle (assigned
+// address, local options, identifiers, counters, ack bits) is exercised by the second round.
+func renegCase(g *vh.Rng, proto string, live bool) vh.Case {
+	c := genCfg(g, proto)
+	c.Live = live
+	if proto == "ipcp" && g.Chance(3, 4) {
+		c.Peer = []byte{10, 0, byte(g.Intn(256)), byte(2 + g.Intn(200))} // statically assigned address, no pool
+	}
+	r := newRunner(c)
+	r.apply(Ev{K: "open", A: "open"})
+	r.apply(Ev{K: "up", A: "up"})
+	neg := []string{"rcr+", "rcr+", "rca", "rca", "rcr-nak", "rcn", "rcj", "rcr-rej", "fire", "rtr", "rta"}
+	cycles := 1 + g.Intn(2)
+	for cy := 0; cy < cycles; cy++ {
+		for i, n := 0, g.Intn(4); i < n; i++ {
+			if e, ok := r.build(neg[g.Intn(len(neg))], g); ok {
+				r.apply(e)
+			}
+		}
+		switch g.Intn(4) {
+		case 0, 1:
+			r.apply(Ev{K: "down", A: "down"})
+			r.apply(Ev{K: "up", A: "up"})
+		case 2:
+			r.apply(Ev{K: "close", A: "close"})
+			if e, ok := r.build([]string{"rta", "fire", "down"}[g.Intn(3)], g); ok {
+				r.apply(e)
+			}
+			r.apply(Ev{K: "open", A: "open"})
+			r.apply(Ev{K: "up", A: "up"})
+		default:
+			r.apply(Ev{K: "down", A: "down"})
+			r.apply(Ev{K: "close", A: "close"})
+			r.apply(Ev{K: "open", A: "open"})
+			r.apply(Ev{K: "up", A: "up"})
+		}
+		// second round: a request the policy must judge exactly as in the first incarnation
+		for _, k := range [][]string{{"rcr-nak", "rca"}, {"rcr+", "rca"}, {"rca", "rcr-nak"}, {"rcr-nak", "rcr+", "rca"}}[g.Intn(4)] {
+			if e, ok := r.build(k, g); ok {
+				r.apply(e)
+			}
+		}
+	}
+	return r.finish("gen:reneg")
+}
+
+// ---------------------------------------------------------------- identifier wrap 255 -> 0
+
+// wrapCase: more than 256 identifiers are consumed (Configure-Naks with the matching identifier make
+// the automaton send a new request each; LCP also code-rejects), then a negotiation across the
+// wrap with matching and stale identifiers.
+func wrapCase(g *vh.Rng, proto string, start int) vh.Case {
+	c := genCfg(g, proto)
+	c.Max = 3
+	r := newRunner(c)
+	r.apply(Ev{K: "open", A: "open"})
+	r.apply(Ev{K: "up", A: "up"})
+	for i := 0; i < start; i++ {
+		k := "rcn"
+		if proto == "lcp" && i%7 == 3 {
+			k = "unknown"
+		}
+		if e, ok := r.build(k, g); ok {
+			r.apply(e)
+		}
+	}
+	for i := 0; i < 6; i++ { // around the wrap
+		for _, k := range []string{"rca-stale", "rcr+", "rca", "rca", "rcn", "sendecho", "rcr-nak", "rcj"} {
+			if g.Chance(2, 3) {
+				if e, ok := r.build(k, g); ok {
+					r.apply(e)
+				}
+			}
+		}
+	}
+	return r.finish("gen:idwrap")
+}
+
+// ---------------------------------------------------------------- restart-counter exhaustion, every phase
+
+// exhaustCase: bring the automaton into a retransmitting state of the configure or terminate phase
+// by the given path, then deliver regular expiries until no timer is left; the monitor counts the
+// requests (clause 5) and, with live, demands a running timer until a terminal state (clause 6).
+func exhaustCase(g *vh.Rng, proto string, max int, path []string, live bool) vh.Case {
+	c := genCfg(g, proto)
+	c.Max = max
+	c.Live = live
+	r := newRunner(c)
+	for _, k := range path {
+		if e, ok := r.build(k, g); ok {
+			r.apply(e)
+		}
+	}
+	for i := 0; i < 14; i++ {
+		e, ok := r.build("fire", g)
+		if !ok {
+			break
+		}
+		r.apply(e)
+	}
+	// afterwards a stale expiry (if one is left) must not revive anything
+	if e, ok := r.build("fire-stale", g); ok {
+		r.apply(e)
+	}
+	return r.finish("gen:exhaust")
+}
+
+var exhaustPaths = [][]string{
+	{"open", "up"},                                  // Req-Sent, configure phase
+	{"up", "open"},                                  // the other order
+	{"open", "up", "rcr+"},                          // Ack-Sent
+	{"open", "up", "rcr-nak"},                       // Req-Sent after a Nak sent
+	{"open", "up", "rcn"},                           // counter re-initialised by a Nak received
+	{"open", "up", "rcj"},                           //
+	{"open", "up", "fire", "rcr+"},                  // one retransmission used, then Ack-Sent
+	{"open", "up", "close"},                         // Closing from Req-Sent: terminate phase
+	{"open", "up", "rcr+", "close"},                 // Closing from Ack-Sent
+	{"open", "up", "rcr+", "rca", "close"},          // Closing from Opened
+	{"open", "up", "rca", "close"},                  // Closing from Ack-Rcvd
+	{"open", "up", "close", "open"},                 // Stopping
+	{"open", "up", "rcr+", "rca", "rcr+"},           // renegotiation from Opened: Ack-Sent with the old counter
+	{"open", "up", "rcr+", "rca", "rcr-nak"},        // ... Req-Sent
+	{"open", "up", "rcr+", "rca", "rca"},            // second Ack in Opened
+	{"open", "up", "rcr+", "rca", "rta"},            // Terminate-Ack in Opened
+	{"open", "up", "rtr", "rcr+"},                   // Stopped, then a request restarts the negotiation
+	{"open", "up", "rcr+", "rca", "cj-crit"},        // LCP: critical Code-Reject closes
+	{"open", "up", "rcr+", "rca", "pj-lcp"},         // LCP: Protocol-Reject of LCP closes
+	{"open", "up", "down", "up"},                    // second incarnation
+	{"open", "up", "rcr+", "rca", "down", "up"},     //
+	{"open", "up", "close", "fire", "fire", "open"}, // Closing partly run down, then re-opened
+}
+
 const header = `From Coq Require Import ZArith NArith List. Import ListNotations.
 From Verif Require Import Base.Word Model.Fsm Model.FsmCheck.
 Local Open Scope N_scope.
@@ -915,5 +1351,46 @@ func main() {
 	}
 	vh.Emit(cfg, "random", header, footer, rnd, nil)
 	vh.Emit(cfg, "silent", header, footer, sil, nil)
+
+	// 4. option values at their acceptance boundaries in every state (deterministic, enumerated)
+	vh.Emit(cfg, "optsweep", header, footer, sweep(g.Fork(), cfg.Thorough()),
+		map[string]interface{}{"exhaustive": true, "space": "option variants (boundary sets, lengths, own values, unknown, dup, reorder, data-less last) x states"})
+
+	// 5. renegotiation across Down/Up and Close/Open, identifier wrap, counter exhaustion per phase
+	nren, nwrap := 150, 1
+	maxes := []int{1, 2, 0}
+	if cfg.Thorough() {
+		nren, nwrap = 1500, 4
+		maxes = []int{1, 2, 3, 10, 0, -1}
+	}
+	var ren, exh []vh.Case
+	for i := 0; i < nren; i++ {
+		ren = append(ren, renegCase(g.Fork(), protos[i%3], false))
+	}
+	for i := 0; i < nwrap*3; i++ {
+		ren = append(ren, wrapCase(g.Fork(), protos[i%3], 244+4*(i/3)))
+	}
+	for pi, proto := range protos {
+		for mi, mx := range maxes {
+			for xi, p := range exhaustPaths {
+				on := (pi+mi+xi)%2 == 0
+				if cfg.Thorough() {
+					exh = append(exh, exhaustCase(g.Fork(), proto, mx, p, false))
+					on = true
+				}
+				c := exhaustCase(g.Fork(), proto, mx, p, on)
+				if on {
+					live = append(live, c)
+				} else {
+					exh = append(exh, c)
+				}
+			}
+		}
+	}
+	for i := 0; i < nren/3; i++ {
+		live = append(live, renegCase(g.Fork(), protos[i%3], true))
+	}
+	vh.Emit(cfg, "reneg", header, footer, ren, nil)
+	vh.Emit(cfg, "exhaust", header, footer, exh, map[string]interface{}{"exhaustive": true, "space": "protocol x configured count x phase path, then expiries to the end"})
 	vh.Emit(cfg, "live", header, footer, live, nil)
 }
